@@ -655,6 +655,11 @@ func checkC07(c *Ctx) {
 			return "(unset)"
 		}
 		s := sx.str(v)
+		if call, ok := unparen(v).(*ast.CallExpr); ok {
+			if src := mapCopyArg(w, info, call, 0); src != nil {
+				return "copy of " + sx.str(src)
+			}
+		}
 		// a local map filled by a copy loop
 		if id := identOf(v); id != nil {
 			if cp, ok := scopies["$"+id.Name]; ok {
@@ -706,7 +711,50 @@ func rangeKeyOf(w *World, f *Func, e ast.Expr, src string) bool {
 
 // mapCopies finds "dst = make(…); for k, v := range SRC { dst[k] = v }" (and maps.Clone) patterns; returns
 // expansion(dst) -> expansion(SRC). dst is a field path ("$dr.f") or a local ("$name").
-func mapCopies(w *World, f *Func) map[string]string {
+func mapCopies(w *World, f *Func) map[string]string { return mapCopiesD(w, f, 0) }
+
+// mapCopyArg: the call returns a fresh map holding exactly the entries of its single map argument — maps.Clone, or a
+// module helper that makes a map, fills it entry by entry from its parameter and returns it on every return.
+func mapCopyArg(w *World, info *types.Info, call *ast.CallExpr, depth int) ast.Expr {
+	callee := calleeOf(info, call)
+	if callee == nil || len(call.Args) != 1 {
+		return nil
+	}
+	if funcFullName(callee) == "maps.Clone" {
+		return call.Args[0]
+	}
+	g := w.byObj[callee]
+	if g == nil || g.Body == nil || depth > 3 || g.Sig().Params().Len() != 1 || g.Sig().Results().Len() != 1 {
+		return nil
+	}
+	if _, isMap := g.Sig().Results().At(0).Type().Underlying().(*types.Map); !isMap {
+		return nil
+	}
+	cp := mapCopiesD(w, g, depth+1)
+	want := "$" + g.Sig().Params().At(0).Name()
+	n, ok := 0, true
+	walkNoLit(g.Body, func(nd ast.Node) bool {
+		if r, isR := nd.(*ast.ReturnStmt); isR {
+			n++
+			var id *ast.Ident
+			if len(r.Results) == 1 {
+				id = identOf(r.Results[0])
+			} else if len(r.Results) == 0 && g.Sig().Results().At(0).Name() != "" {
+				id = ast.NewIdent(g.Sig().Results().At(0).Name())
+			}
+			if id == nil || cp["$"+id.Name] != want {
+				ok = false
+			}
+		}
+		return true
+	})
+	if n == 0 || !ok {
+		return nil
+	}
+	return call.Args[0]
+}
+
+func mapCopiesD(w *World, f *Func, depth int) map[string]string {
 	info := f.Pkg.TypesInfo
 	x := w.expander(f)
 	out := map[string]string{}
@@ -725,6 +773,23 @@ func mapCopies(w *World, f *Func) map[string]string {
 		return exprStr(e)
 	}
 	made := map[string]token.Pos{}
+	record := func(dst string, rhs ast.Expr, pos token.Pos) {
+		if call, ok := unparen(rhs).(*ast.CallExpr); ok {
+			if isBuiltin(info, call, "make") {
+				made[dst] = pos
+			}
+			if src := mapCopyArg(w, info, call, depth); src != nil {
+				out[dst] = x.str(src)
+			}
+		}
+		if cl, ok := unparen(rhs).(*ast.CompositeLit); ok && len(cl.Elts) == 0 {
+			if tv, ok := info.Types[cl]; ok {
+				if _, isMap := tv.Type.Underlying().(*types.Map); isMap {
+					made[dst] = pos
+				}
+			}
+		}
+	}
 	walkNoLit(f.Body, func(n ast.Node) bool {
 		switch n := n.(type) {
 		case *ast.AssignStmt:
@@ -732,20 +797,12 @@ func mapCopies(w *World, f *Func) map[string]string {
 				if len(n.Rhs) != len(n.Lhs) {
 					continue
 				}
-				if call, ok := unparen(n.Rhs[i]).(*ast.CallExpr); ok {
-					if isBuiltin(info, call, "make") {
-						made[name(l)] = n.Pos()
-					}
-					if callee := calleeOf(info, call); callee != nil && funcFullName(callee) == "maps.Clone" && len(call.Args) == 1 {
-						out[name(l)] = x.str(call.Args[0])
-					}
-				}
-				if cl, ok := unparen(n.Rhs[i]).(*ast.CompositeLit); ok && len(cl.Elts) == 0 {
-					if tv, ok := info.Types[cl]; ok {
-						if _, isMap := tv.Type.Underlying().(*types.Map); isMap {
-							made[name(l)] = n.Pos()
-						}
-					}
+				record(name(l), n.Rhs[i], n.Pos())
+			}
+		case *ast.ValueSpec:
+			for i, nm := range n.Names {
+				if len(n.Values) == len(n.Names) {
+					record("$"+nm.Name, n.Values[i], n.Pos())
 				}
 			}
 		case *ast.RangeStmt:
